@@ -22,7 +22,7 @@ func zzFragment(name string, in []uint64, mask uint64) []uint64 {
 		return []uint64{(in[0] - 1) & mask}
 	case "sum2":
 		return []uint64{(in[0] + in[1]) & mask}
-	case "dbl":
+	case "dbl", "dbl3":
 		return []uint64{(in[0] + in[0]) & mask}
 	case "fan2":
 		return []uint64{in[0], (in[0] + 1) & mask}
